@@ -167,9 +167,10 @@ Import(S, entry, h) ==
          IF Cardinality(gs) # 1 THEN Fail(S, IErr)
          ELSE LET tg == CHOOSE x \in gs : TRUE IN OkV(PutDoc(S, S.doc, tg), tg)
 
+\* (cloning a graph onto itself re-creates its nodes: edges to nodes of OTHER graphs - which only node merging
+\*  creates - do not survive, exactly as for any other replacement of a graph)
 Clone(S, g, h) ==
     IF KeysOf(S, g) = {} THEN Fail(S, QErr)
-    ELSE IF g = h THEN Ok(S)
     ELSE Ok(PutDoc(S, DocOf(S, g), h))
 
 \* merge node n of graph h into node n of graph g (shared store only).
@@ -333,8 +334,16 @@ Apply(S, o) ==
       [] o.op = "PathWithHops"    -> PathWithHops(S, o.g, o.a, o.z, ToSet(o.hops))
 
 \* The per-graph ("disjoint") store documents node merging as unsupported: RuntimeError, nothing changes.
-ApplyOn(be, S, o) ==
-    IF be = "disjoint" /\ o.op = "MergeNodes" THEN Fail(S, RErr) ELSE Apply(S, o)
+\* GraphML cannot carry list-valued properties (the 'combine' merge policy creates them): networkx refuses.
+IsListTok(v) == Len(v) > 0 /\ SubSeq(v, 1, 1) = "["
+HasListValue(S, g) ==
+    \/ \E k \in KeysOf(S, g) : \E p \in DOMAIN S.n[k].props : IsListTok(S.n[k].props[p])
+    \/ \E ek \in EKeysOf(S, g) : \E p \in DOMAIN S.e[ek].props : IsListTok(S.e[ek].props[p])
+ApplyOn(be, fmt, S, o) ==
+    IF be = "disjoint" /\ o.op = "MergeNodes" THEN Fail(S, RErr)
+    ELSE IF fmt = "graphml" /\ o.op \in {"Export", "Clone"} /\ HasListValue(S, o.g) /\ (o.op = "Export" \/ FALSE)
+         THEN Fail(S, "NetworkXError")
+    ELSE Apply(S, o)
 
 \* Named deviations: places where the implementation is known to differ from the reference semantics.  A trace
 \* line that matches one is still REJECTED - with the deviation's name as the clause, so that it can be listed
